@@ -382,6 +382,42 @@ func registerVerifrt() {
 		S.now = target
 		return quiesceOthers()
 	})
+	// the SIMD kernels (assembly; decided by asmsmt, checks/c15.py): under gosmt only their
+	// memory effect matters - they read the first cells of both vectors and WRITE their
+	// results through the result pointers - so that the Go wrappers around them can be
+	// run with race detection (a wrapper that hands out shared result slots is a data race)
+	for _, pkg := range []string{"github.com/marekgalovic/anndb/simd/avx.", "github.com/marekgalovic/anndb/simd/sse."} {
+		f32 := types.Typ[types.Float32]
+		kernel := func(nres int) externalFn {
+			return func(fr *frame, a []value) value {
+				for _, in := range a[1:3] {
+					if p, ok := in.(*value); ok && p != nil {
+						raceMem(fr, f32, p, false)
+					}
+				}
+				for _, out := range a[3 : 3+nres] {
+					p, ok := out.(*value)
+					if !ok || p == nil {
+						panic(engineError{"SIMD kernel stub: result pointer is not a cell"})
+					}
+					raceMem(fr, f32, p, true)
+					// a value derived from the first lane of a, so that different callers expect different results
+					v := value(float32(4))
+					if ap, ok := a[1].(*value); ok && ap != nil {
+						if f, isF := (*ap).(float32); isF {
+							v = f*f + 1
+						}
+					}
+					*p = v
+				}
+				S.switchPoint("simd-kernel")
+				return nil
+			}
+		}
+		ext(pkg+"_euclidean_distance_squared", kernel(1))
+		ext(pkg+"_manhattan_distance", kernel(1))
+		ext(pkg+"_cosine_similarity_dot_norm", kernel(2))
+	}
 	// processes: goroutines started while the current goroutine carries tag n inherit it;
 	// KillProcess(n) stops all of them for good (a crashed process)
 	ext(p+"SetProcess", func(fr *frame, a []value) value { S.cur.proc = int(asInt64(a[0])); return nil })
